@@ -94,8 +94,9 @@ Theorem C16_uniform_projected_density :
   (forall (f f' : nat -> R) (a : nat), (forall a' : nat, f a' = f' a') -> dphi f a = dphi f' a) ->
   (* H_conv *)
   (forall (a : nat) (i : idx), WD (uniform rho_b) a i = wd_b a) ->
-  (forall (pd : nat -> idx -> R) (c : nat -> R),
-     (forall (a : nat) (i : idx), pd a i = c a) -> forall (s : nat) (i : idx), BACK pd s i = back_b c s) ->
+  (forall pd pd' : nat -> idx -> R,
+     (forall (a : nat) (i : idx), pd a i = pd' a i) -> forall (s : nat) (i : idx), BACK pd s i = BACK pd' s i) ->
+  (forall (s : nat) (i : idx), BACK (fun (a : nat) (_ : idx) => dphi wd_b a) s i = back_b (dphi wd_b) s) ->
   (forall e : field, (forall (s : nat) (i : idx), e s i = 1) -> forall (s : nat) (i : idx), BOND e s i = 1) ->
   (* no external potential *)
   (forall (s : nat) (i : idx), Vext s i = 0) ->
@@ -112,8 +113,9 @@ Theorem C16_uniform_residual_zero :
     (back_b : (nat -> R) -> nat -> R),
   (forall (f f' : nat -> R) (a : nat), (forall a' : nat, f a' = f' a') -> dphi f a = dphi f' a) ->
   (forall (a : nat) (i : idx), WD (uniform rho_b) a i = wd_b a) ->
-  (forall (pd : nat -> idx -> R) (c : nat -> R),
-     (forall (a : nat) (i : idx), pd a i = c a) -> forall (s : nat) (i : idx), BACK pd s i = back_b c s) ->
+  (forall pd pd' : nat -> idx -> R,
+     (forall (a : nat) (i : idx), pd a i = pd' a i) -> forall (s : nat) (i : idx), BACK pd s i = BACK pd' s i) ->
+  (forall (s : nat) (i : idx), BACK (fun (a : nat) (_ : idx) => dphi wd_b a) s i = back_b (dphi wd_b) s) ->
   (forall e : field, (forall (s : nat) (i : idx), e s i = 1) -> forall (s : nat) (i : idx), BOND e s i = 1) ->
   (forall (s : nat) (i : idx), Vext s i = 0) ->
   (forall s : nat, m s <> 0) ->
@@ -127,8 +129,9 @@ Theorem C16_uniform_residual_log_zero :
     (back_b : (nat -> R) -> nat -> R),
   (forall (f f' : nat -> R) (a : nat), (forall a' : nat, f a' = f' a') -> dphi f a = dphi f' a) ->
   (forall (a : nat) (i : idx), WD (uniform rho_b) a i = wd_b a) ->
-  (forall (pd : nat -> idx -> R) (c : nat -> R),
-     (forall (a : nat) (i : idx), pd a i = c a) -> forall (s : nat) (i : idx), BACK pd s i = back_b c s) ->
+  (forall pd pd' : nat -> idx -> R,
+     (forall (a : nat) (i : idx), pd a i = pd' a i) -> forall (s : nat) (i : idx), BACK pd s i = BACK pd' s i) ->
+  (forall (s : nat) (i : idx), BACK (fun (a : nat) (_ : idx) => dphi wd_b a) s i = back_b (dphi wd_b) s) ->
   (forall e : field, (forall (s : nat) (i : idx), e s i = 1) -> forall (s : nat) (i : idx), BOND e s i = 1) ->
   (forall (s : nat) (i : idx), Vext s i = 0) ->
   (forall s : nat, m s <> 0) ->
@@ -143,8 +146,9 @@ Theorem C16_uniform_residual_norm_zero :
     (Vext : field) (wd_b : nat -> R) (back_b : (nat -> R) -> nat -> R),
   (forall (f f' : nat -> R) (a : nat), (forall a' : nat, f a' = f' a') -> dphi f a = dphi f' a) ->
   (forall (a : nat) (i : idx), WD (uniform rho_b) a i = wd_b a) ->
-  (forall (pd : nat -> idx -> R) (c : nat -> R),
-     (forall (a : nat) (i : idx), pd a i = c a) -> forall (s : nat) (i : idx), BACK pd s i = back_b c s) ->
+  (forall pd pd' : nat -> idx -> R,
+     (forall (a : nat) (i : idx), pd a i = pd' a i) -> forall (s : nat) (i : idx), BACK pd s i = BACK pd' s i) ->
+  (forall (s : nat) (i : idx), BACK (fun (a : nat) (_ : idx) => dphi wd_b a) s i = back_b (dphi wd_b) s) ->
   (forall e : field, (forall (s : nat) (i : idx), e s i = 1) -> forall (s : nat) (i : idx), BOND e s i = 1) ->
   (forall (s : nat) (i : idx), Vext s i = 0) ->
   (forall s : nat, m s <> 0) ->
@@ -161,8 +165,9 @@ Theorem C16_uniform_residual_norm_zero_chemical_potential :
     (Vext : field) (wd_b : nat -> R) (back_b : (nat -> R) -> nat -> R),
   (forall (f f' : nat -> R) (a : nat), (forall a' : nat, f a' = f' a') -> dphi f a = dphi f' a) ->
   (forall (a : nat) (i : idx), WD (uniform rho_b) a i = wd_b a) ->
-  (forall (pd : nat -> idx -> R) (c : nat -> R),
-     (forall (a : nat) (i : idx), pd a i = c a) -> forall (s : nat) (i : idx), BACK pd s i = back_b c s) ->
+  (forall pd pd' : nat -> idx -> R,
+     (forall (a : nat) (i : idx), pd a i = pd' a i) -> forall (s : nat) (i : idx), BACK pd s i = BACK pd' s i) ->
+  (forall (s : nat) (i : idx), BACK (fun (a : nat) (_ : idx) => dphi wd_b a) s i = back_b (dphi wd_b) s) ->
   (forall e : field, (forall (s : nat) (i : idx), e s i = 1) -> forall (s : nat) (i : idx), BOND e s i = 1) ->
   (forall (s : nat) (i : idx), Vext s i = 0) ->
   (forall s : nat, m s <> 0) ->
@@ -178,8 +183,9 @@ Theorem C16_uniform_normalisation_integral :
     (Vext : field) (wd_b : nat -> R) (back_b : (nat -> R) -> nat -> R),
   (forall (f f' : nat -> R) (a : nat), (forall a' : nat, f a' = f' a') -> dphi f a = dphi f' a) ->
   (forall (a : nat) (i : idx), WD (uniform rho_b) a i = wd_b a) ->
-  (forall (pd : nat -> idx -> R) (c : nat -> R),
-     (forall (a : nat) (i : idx), pd a i = c a) -> forall (s : nat) (i : idx), BACK pd s i = back_b c s) ->
+  (forall pd pd' : nat -> idx -> R,
+     (forall (a : nat) (i : idx), pd a i = pd' a i) -> forall (s : nat) (i : idx), BACK pd s i = BACK pd' s i) ->
+  (forall (s : nat) (i : idx), BACK (fun (a : nat) (_ : idx) => dphi wd_b a) s i = back_b (dphi wd_b) s) ->
   (forall e : field, (forall (s : nat) (i : idx), e s i = 1) -> forall (s : nat) (i : idx), BOND e s i = 1) ->
   (forall (s : nat) (i : idx), Vext s i = 0) ->
   (forall s : nat, m s <> 0) ->
@@ -197,8 +203,9 @@ Theorem C16_uniform_res_bulk_moles :
     (Vext : field) (wd_b : nat -> R) (back_b : (nat -> R) -> nat -> R),
   (forall (f f' : nat -> R) (a : nat), (forall a' : nat, f a' = f' a') -> dphi f a = dphi f' a) ->
   (forall (a : nat) (i : idx), WD (uniform rho_b) a i = wd_b a) ->
-  (forall (pd : nat -> idx -> R) (c : nat -> R),
-     (forall (a : nat) (i : idx), pd a i = c a) -> forall (s : nat) (i : idx), BACK pd s i = back_b c s) ->
+  (forall pd pd' : nat -> idx -> R,
+     (forall (a : nat) (i : idx), pd a i = pd' a i) -> forall (s : nat) (i : idx), BACK pd s i = BACK pd' s i) ->
+  (forall (s : nat) (i : idx), BACK (fun (a : nat) (_ : idx) => dphi wd_b a) s i = back_b (dphi wd_b) s) ->
   (forall e : field, (forall (s : nat) (i : idx), e s i = 1) -> forall (s : nat) (i : idx), BOND e s i = 1) ->
   (forall (s : nat) (i : idx), Vext s i = 0) ->
   (forall s : nat, m s <> 0) ->
@@ -215,8 +222,9 @@ Theorem C16_uniform_res_bulk_total_moles :
     (Vext : field) (wd_b : nat -> R) (back_b : (nat -> R) -> nat -> R),
   (forall (f f' : nat -> R) (a : nat), (forall a' : nat, f a' = f' a') -> dphi f a = dphi f' a) ->
   (forall (a : nat) (i : idx), WD (uniform rho_b) a i = wd_b a) ->
-  (forall (pd : nat -> idx -> R) (c : nat -> R),
-     (forall (a : nat) (i : idx), pd a i = c a) -> forall (s : nat) (i : idx), BACK pd s i = back_b c s) ->
+  (forall pd pd' : nat -> idx -> R,
+     (forall (a : nat) (i : idx), pd a i = pd' a i) -> forall (s : nat) (i : idx), BACK pd s i = BACK pd' s i) ->
+  (forall (s : nat) (i : idx), BACK (fun (a : nat) (_ : idx) => dphi wd_b a) s i = back_b (dphi wd_b) s) ->
   (forall e : field, (forall (s : nat) (i : idx), e s i = 1) -> forall (s : nat) (i : idx), BOND e s i = 1) ->
   (forall (s : nat) (i : idx), Vext s i = 0) ->
   (forall s : nat, m s <> 0) ->
@@ -237,8 +245,9 @@ Theorem C16_uniform_grand_potential_density :
   (forall f f' : nat -> R, (forall a : nat, f a = f' a) -> phi f = phi f') ->
   (forall (f f' : nat -> R) (a : nat), (forall a' : nat, f a' = f' a') -> dphi f a = dphi f' a) ->
   (forall (a : nat) (i : idx), WD (uniform rho_b) a i = wd_b a) ->
-  (forall (pd : nat -> idx -> R) (c : nat -> R),
-     (forall (a : nat) (i : idx), pd a i = c a) -> forall (s : nat) (i : idx), BACK pd s i = back_b c s) ->
+  (forall pd pd' : nat -> idx -> R,
+     (forall (a : nat) (i : idx), pd a i = pd' a i) -> forall (s : nat) (i : idx), BACK pd s i = BACK pd' s i) ->
+  (forall (s : nat) (i : idx), BACK (fun (a : nat) (_ : idx) => dphi wd_b a) s i = back_b (dphi wd_b) s) ->
   (forall s : nat, nbonds s = 0%nat) ->
   forall p : R,
   (* H_euler_C02 *)
@@ -256,8 +265,9 @@ Theorem C16_uniform_grand_potential_density_hetero :
   (forall f f' : nat -> R, (forall a : nat, f a = f' a) -> phi f = phi f') ->
   (forall (f f' : nat -> R) (a : nat), (forall a' : nat, f a' = f' a') -> dphi f a = dphi f' a) ->
   (forall (a : nat) (i : idx), WD (uniform rho_b) a i = wd_b a) ->
-  (forall (pd : nat -> idx -> R) (c : nat -> R),
-     (forall (a : nat) (i : idx), pd a i = c a) -> forall (s : nat) (i : idx), BACK pd s i = back_b c s) ->
+  (forall pd pd' : nat -> idx -> R,
+     (forall (a : nat) (i : idx), pd a i = pd' a i) -> forall (s : nat) (i : idx), BACK pd s i = BACK pd' s i) ->
+  (forall (s : nat) (i : idx), BACK (fun (a : nat) (_ : idx) => dphi wd_b a) s i = back_b (dphi wd_b) s) ->
   (forall s : nat, m s = 1) ->
   forall p rho_mol : R,
   rsum (fun s : nat => rho_b s * (1 - / 2 * INR (nbonds s))) S = rho_mol ->
@@ -300,8 +310,9 @@ Theorem C16_uniform_grand_potential :
   (forall f f' : nat -> R, (forall a : nat, f a = f' a) -> phi f = phi f') ->
   (forall (f f' : nat -> R) (a : nat), (forall a' : nat, f a' = f' a') -> dphi f a = dphi f' a) ->
   (forall (a : nat) (i : idx), WD (uniform rho_b) a i = wd_b a) ->
-  (forall (pd : nat -> idx -> R) (c : nat -> R),
-     (forall (a : nat) (i : idx), pd a i = c a) -> forall (s : nat) (i : idx), BACK pd s i = back_b c s) ->
+  (forall pd pd' : nat -> idx -> R,
+     (forall (a : nat) (i : idx), pd a i = pd' a i) -> forall (s : nat) (i : idx), BACK pd s i = BACK pd' s i) ->
+  (forall (s : nat) (i : idx), BACK (fun (a : nat) (_ : idx) => dphi wd_b a) s i = back_b (dphi wd_b) s) ->
   forall p : R,
   omega_bulk S rho_b m nbonds T phi dphi wd_b back_b = - p ->
   grand_potential g S m nbonds T WD phi dphi BACK (uniform rho_b) = - p * W g.
@@ -317,8 +328,9 @@ Theorem C16_excess_grand_potential_zero_iff :
   (forall f f' : nat -> R, (forall a : nat, f a = f' a) -> phi f = phi f') ->
   (forall (f f' : nat -> R) (a : nat), (forall a' : nat, f a' = f' a') -> dphi f a = dphi f' a) ->
   (forall (a : nat) (i : idx), WD (uniform rho_b) a i = wd_b a) ->
-  (forall (pd : nat -> idx -> R) (c : nat -> R),
-     (forall (a : nat) (i : idx), pd a i = c a) -> forall (s : nat) (i : idx), BACK pd s i = back_b c s) ->
+  (forall pd pd' : nat -> idx -> R,
+     (forall (a : nat) (i : idx), pd a i = pd' a i) -> forall (s : nat) (i : idx), BACK pd s i = BACK pd' s i) ->
+  (forall (s : nat) (i : idx), BACK (fun (a : nat) (_ : idx) => dphi wd_b a) s i = back_b (dphi wd_b) s) ->
   forall p : R,
   omega_bulk S rho_b m nbonds T phi dphi wd_b back_b = - p ->
   forall V : R, p <> 0 ->
@@ -345,8 +357,9 @@ Theorem C16_uniform_excess_zero :
   (forall f f' : nat -> R, (forall a : nat, f a = f' a) -> phi f = phi f') ->
   (forall (f f' : nat -> R) (a : nat), (forall a' : nat, f a' = f' a') -> dphi f a = dphi f' a) ->
   (forall (a : nat) (i : idx), WD (uniform rho_b) a i = wd_b a) ->
-  (forall (pd : nat -> idx -> R) (c : nat -> R),
-     (forall (a : nat) (i : idx), pd a i = c a) -> forall (s : nat) (i : idx), BACK pd s i = back_b c s) ->
+  (forall pd pd' : nat -> idx -> R,
+     (forall (a : nat) (i : idx), pd a i = pd' a i) -> forall (s : nat) (i : idx), BACK pd s i = BACK pd' s i) ->
+  (forall (s : nat) (i : idx), BACK (fun (a : nat) (_ : idx) => dphi wd_b a) s i = back_b (dphi wd_b) s) ->
   forall p : R,
   omega_bulk S rho_b m nbonds T phi dphi wd_b back_b = - p ->
   constructed_grid g ->
